@@ -60,6 +60,25 @@ CHECKS.update({
    note="Gauges are process-global: values are taken relative to the run's baseline read at rest.", ref="DESIGN.md 5/C20"),
 })
 
+PEER = SIM + "; independent simulated RFC 8907 peer on both sides (model client vs real server, real tacquito.Client vs model server)"
+CHECKS.update({
+ "C01": dict(tech=PEER + "; byte-for-byte comparison of library encodings/decodings with the independent layout",
+   text="Exploration by an independent peer: every header and body kind is put through the library encoder (client requests, server replies) and the library decoder (handler-side request decode, client-side reply decode) with an independent RFC 8907 implementation on the other end of the simulated connection, so a mistake that is symmetric inside the library cannot cancel out.",
+   note="The property has no schedule in it: segmentation and delays are on but do not decide; the deciding element is the independent peer; values are sampled by seeded generation, not enumerated.", ref="DESIGN.md 5/C01"),
+ "C02": dict(tech=PEER + "; representability decided by the model; passive tap runs decode-encode-decode on every observed body",
+   text="Exploration: values on both sides of every wire-width boundary (255/256, 65535/65536, 255/256 arguments, 1-byte arguments, non-ASCII text, unknown enum members) are sent by the real client and replied by the real server; either the encoder errs and nothing reaches the wire, or the bytes decode (independently) to the identical value. The tap additionally checks decode->encode->decode on every body seen on the wire, damaged ones included.",
+   note="Input property: schedule search does not decide. Decode-first clause covers byte strings that occur on the simulated wire (incl. under faults), not arbitrary byte strings.", ref="DESIGN.md 5/C02"),
+ "C03": dict(tech=PEER + "; independent MD5 pad (crypto/md5) applied to the library's own cleartext in both directions",
+   text="Exploration: secrets of 0..64 arbitrary octets, session ids incl. 0 and 2^32-1, both versions, sequence numbers up to 255, body lengths around every multiple of 16 and the 65536 limit; the oracle checks wire = cleartext XOR RFC pad against the cleartext the sending library produced, that the receiver recovers it, that header bytes and length are untouched and that the clear flag leaves the body verbatim.",
+   note="Input property; values sampled.", ref="DESIGN.md 5/C03"),
+ "C04": dict(tech=SIM + "; transport faults as inputs (every truncation = connection cut, every corruption = bit flipped in transit); passive tap hands observed bytes to all public decoders with poisoned spare capacity; per-step allocation measurement",
+   text="Exploration/fault injection: valid packet sequences are truncated at arbitrary bytes, bit-flipped in header, length and body, given inconsistent length octets and oversize announcements, and fed to the real server (probe and reference handlers) and to the real client's read path; a tap passes every observed prefix, packet and deobfuscated body to Header/Packet/seven body decoders and Request.Fields under recover with poisoned capacity, checking containment in the input, validity of accepted values and allocation per step.",
+   note="Covers byte strings reachable on the simulated wire under the injected faults, not all byte strings; allocation bound is measured with runtime.MemStats.", ref="DESIGN.md 5/C04"),
+ "C09": dict(tech=REF + "; solo-run oracle: each session's transcript in the multiplexed/concurrent run is compared byte for byte with its transcript on a fresh server that sees only that session",
+   text="Exploration of interleavings: 2..8 session scripts per connection (ASCII at different stages, PAP, aborts, authorizations, accounting), up to 4 connections with equal session ids, packet interleavings chosen by the seed and delivery/handler overlap by the tape (batch steps, handlers parked at logger/keychain/sink seams); each session's raw reply transcript must equal the transcript it gets when alone.",
+   note="Interleavings sampled; the solo run is the real server too (cross-checked against the reference model by the C07/C10 oracles).", ref="DESIGN.md 5/C09"),
+})
+
 def main():
     checks = []
     for pid in ALL:
